@@ -211,3 +211,134 @@ VERIF_HARNESS(h_n05)
   check(parser, p::skipper::epsilon{}, g, 0, -1, 5, [](input const &in) { verif_assume(in.b[0] == '6' && in.b[1] == '5' && in.b[2] == '5'); });
 }
 //@harness h_n05 tier=thorough loop=20 wall=900
+
+// ---------------------------------------------------------------------------------------------------------------------
+// Number parsers UNDER AN ACTIVE SKIPPER.  int_ / uint are lexemes ("A signed integer string optionally starts with the
+// symbol '-'.  It is then followed by a nonempty sequence of digits"): the skipper runs only BETWEEN tokens (start of
+// phrase_parse, between the parts of a sequence, after each repetition element), never between the sign and the digits
+// or between two digits.  "- 5" is not an int; "3 - 4" under *int_ yields {3} and stops before the '-'.
+// Every harness exists twice: h_kNN with fully symbolic bytes (all 256 values; each symbolic digit lookup is a 13-way
+// fork in std::unordered_set, so lengths stay small) and h_kNNa with every byte symbolic over the alphabet
+// {'-', ' ', '\t', ',', '4', '7', 'a'} ("for all input strings over a small alphabet" of the property), which reaches
+// the lengths where sign, blanks and digits interact.
+namespace c02
+{
+template <>
+struct vtag<fcppt::tuple::object<fcppt::optional::object<fcppt::unit>, unsigned>>
+{
+  static constexpr u64 value = 1302;
+};
+}
+namespace
+{
+void small_alphabet(input const &in)
+{
+  for (unsigned i = 0; i < in.n; ++i)
+  {
+    char const c = in.b[i];
+    verif_assume(c == '-' || c == ' ' || c == '\t' || c == ',' || c == '4' || c == '7' || c == 'a');
+  }
+}
+using space_t = decltype(p::skipper::space());
+
+template <typename Parser, typename Skipper>
+void kcheck(Parser const &parser, Skipper const &skipper, node const *const g, int const skiproot, bool const small)
+{
+  check(parser, skipper, g, 0, skiproot, len(), small ? &small_alphabet : nullptr);
+}
+
+// k01: int_ >> lexeme(*char_) under space: blanks before the number are skipped (phrase_parse), none inside it; the
+// lexeme'd rest shows where the number ended and that the sequence's skipper ran after it
+void k01(bool const small)
+{
+  static constexpr node g[] = {SEQ(1, 2), INT(31), LEXEME(3), REP(4), ANY(), /*skipper 5*/ REP(6), SET(" \n\t")};
+  auto const parser{p::int_<int>{} >> p::make_lexeme(*p::char_{})};
+  static_assert(std::is_same_v<p::result_of<decltype(parser)>, fcppt::tuple::object<int, std::string>>);
+  kcheck(parser, p::skipper::space(), g, 5, small);
+}
+// k02: *int_ >> lexeme(*char_) under space: "3 -4" gives {3,-4}; "3 - 4" gives {3} and the rest "- 4"
+void k02(bool const small)
+{
+  static constexpr node g[] = {SEQ(1, 3), REP(2), INT(31), LEXEME(4), REP(5), ANY(), /*skipper 6*/ REP(7), SET(" \n\t")};
+  auto const parser{*p::int_<int>{} >> p::make_lexeme(*p::char_{})};
+  static_assert(std::is_same_v<p::result_of<decltype(parser)>, fcppt::tuple::object<std::vector<int>, std::string>>);
+  kcheck(parser, p::skipper::space(), g, 6, small);
+}
+// k03: (int_ >> int_) | (int_ >> '-' >> int_) under space: "4 -7" takes the left branch (4,-7); "4- 7" / "4 - 7" make
+// the left branch fail inside the second int_ ('-' not followed by a digit) and the right branch gives (4,7)
+void k03(bool const small)
+{
+  static constexpr node g[] = {ALT(1, 3), SEQ(2, 2), INT(31), SEQ(4, 2), SEQ(2, 5), LIT('-'), /*skipper 6*/ REP(7), SET(" \n\t")};
+  auto const parser{(p::int_<int>{} >> p::int_<int>{}) | (p::int_<int>{} >> p::literal{'-'} >> p::int_<int>{})};
+  static_assert(std::is_same_v<p::result_of<decltype(parser)>, fcppt::tuple::object<int, int>>);
+  kcheck(parser, p::skipper::space(), g, 6, small);
+}
+// k04: uint >> uint under the NON-repeating blank skipper char_set{' ','\t'}: exactly one blank at the start and one
+// between the numbers, none inside
+void k04(bool const small)
+{
+  static constexpr node g[] = {SEQ(1, 1), UINT(32), /*skipper 2*/ SET(" \t")};
+  auto const parser{p::uint<unsigned>{} >> p::uint<unsigned>{}};
+  kcheck(parser, p::skipper::char_set{' ', '\t'}, g, 2, small);
+}
+// k05: +int_ under space: repetition_plus is "identical to repetition" with at least one element, the skipper runs
+// after every element exactly as in  int_ >> *int_
+void k05(bool const small)
+{
+  static constexpr node g[] = {SEQ(1, 3), PLUS(2), INT(31), LEXEME(4), REP(5), ANY(), /*skipper 6*/ REP(7), SET(" \n\t")};
+  auto const parser{+p::int_<int>{} >> p::make_lexeme(*p::char_{})};
+  static_assert(std::is_same_v<p::result_of<decltype(parser)>, fcppt::tuple::object<std::vector<int>, std::string>>);
+  kcheck(parser, p::skipper::space(), g, 6, small);
+}
+// k06: separator{int_, ','} >> lexeme(*char_) under space: "4 , -7"; "4,- 7" stops after the 4 (the separator and the
+// broken number are given back)
+void k06(bool const small)
+{
+  static constexpr node g[] = {SEQ(1, 4), SEP(2, 3), INT(31), LIT(','), LEXEME(5), REP(6), ANY(), /*skipper 7*/ REP(8), SET(" \n\t")};
+  auto const parser{p::separator{p::int_<int>{}, p::literal{','}} >> p::make_lexeme(*p::char_{})};
+  static_assert(std::is_same_v<p::result_of<decltype(parser)>, fcppt::tuple::object<std::vector<int>, std::string>>);
+  kcheck(parser, p::skipper::space(), g, 7, small);
+}
+// k07: -'-' >> uint under space is NOT int_: here the blank between sign and digits is allowed ("- 4" succeeds), which
+// is exactly what the lexeme inside int_ forbids; both side by side in one alternative: int_ | (-'-' >> uint)
+void k07(bool const small)
+{
+  static constexpr node g[] = {SEQ(1, 7), ALT(2, 3, T_INT, 1302), INT(31), SEQ(4, 6), OPT(5), LIT('-'), UINT(32), LEXEME(8), REP(9), ANY(),
+                               /*skipper 10*/ REP(11), SET(" \n\t")};
+  auto const parser{(p::int_<int>{} | (-p::literal{'-'} >> p::uint<unsigned>{})) >> p::make_lexeme(*p::char_{})};
+  kcheck(parser, p::skipper::space(), g, 10, small);
+}
+}
+VERIF_HARNESS(h_k01) { k01(false); }
+VERIF_HARNESS(h_k01a) { k01(true); }
+VERIF_HARNESS(h_k02) { k02(false); }
+VERIF_HARNESS(h_k02a) { k02(true); }
+VERIF_HARNESS(h_k03) { k03(false); }
+VERIF_HARNESS(h_k03a) { k03(true); }
+VERIF_HARNESS(h_k04) { k04(false); }
+VERIF_HARNESS(h_k04a) { k04(true); }
+VERIF_HARNESS(h_k05) { k05(false); }
+VERIF_HARNESS(h_k05a) { k05(true); }
+VERIF_HARNESS(h_k06) { k06(false); }
+VERIF_HARNESS(h_k06a) { k06(true); }
+VERIF_HARNESS(h_k07) { k07(false); }
+VERIF_HARNESS(h_k07a) { k07(true); }
+// k03b: the ordered choice at the length where it matters (4): first byte a digit of {4,7}, the other three symbolic
+// over {'-', ' ', '4'}: "4- 4" and "4--4" need the right branch, "4 -4" / "44 4" the left one, "4 - " neither
+VERIF_HARNESS(h_k03b)
+{
+  static constexpr node g[] = {ALT(1, 3), SEQ(2, 2), INT(31), SEQ(4, 2), SEQ(2, 5), LIT('-'), /*skipper 6*/ REP(7), SET(" \n\t")};
+  auto const parser{(p::int_<int>{} >> p::int_<int>{}) | (p::int_<int>{} >> p::literal{'-'} >> p::int_<int>{})};
+  check(parser, p::skipper::space(), g, 0, 6, 4, [](input const &in) {
+    verif_assume(in.b[0] == '4' || in.b[0] == '7');
+    for (unsigned i = 1; i < 4; ++i)
+      verif_assume(in.b[i] == '-' || in.b[i] == ' ' || in.b[i] == '4');
+  });
+}
+//@harness h_k03b tier=quick loop=24
+//@harness h_k0{K} for K in 1,2 param n=0..2 tier=quick loop=24
+//@harness h_k0{K} for K in 3,4,5,6,7 param n=0..1 tier=quick loop=24
+//@harness h_k0{K}a for K in 1,2,3,4,5,6,7 param n=3..3 tier=quick loop=24
+//@harness h_k0{K} for K in 1,2 param n=3..3 tier=thorough loop=24 paths=200000 wall=2400
+//@harness h_k0{K} for K in 3,4,5,6,7 param n=2..2 tier=thorough loop=24
+//@harness h_k0{K}a for K in 1,2,3,4,5,6,7 param n=4..4 tier=thorough loop=24 paths=200000 wall=2400
